@@ -311,18 +311,23 @@ func newGRPCBroker(s streamer, tls *tls.Config, unixSocketCfg UnixSocketConfig, 
 func (b *GRPCBroker) Accept(id uint32) (net.Listener, error) {
 	if b.muxer.Enabled() {
 		p := b.getServerStream(id)
+
+		// Register the listener with the muxer before starting to listen for
+		// knocks: a knock that is already pending (the other side dialled
+		// first) is answered as soon as the knock loop starts, and the muxer
+		// must know the listener by then.
+		ln, err := b.muxer.Listener(id, p.doneCh)
+		if err != nil {
+			return nil, err
+		}
+		verifhook.Point("grpcbroker.accept.mux-mid")
+
 		go func() {
 			err := b.listenForKnocks(id)
 			if err != nil {
 				log.Printf("[ERR]: error listening for knocks, id: %d, error: %s", id, err)
 			}
 		}()
-		verifhook.Point("grpcbroker.accept.mux-mid")
-
-		ln, err := b.muxer.Listener(id, p.doneCh)
-		if err != nil {
-			return nil, err
-		}
 
 		ln = &rmListener{
 			Listener: ln,
